@@ -15,6 +15,7 @@ from mc.drivers import stores as S
 
 VBASE = _real_datetime(2021, 6, 1, 12, 0, 0)
 VNOW = [0.0]  # virtual seconds since VBASE
+LOCAL_OFFSET = timedelta(hours=-5)
 
 
 class VirtualDatetime(_real_datetime):
@@ -22,10 +23,13 @@ class VirtualDatetime(_real_datetime):
 
     @classmethod
     def now(cls, tz=None):
+        # VBASE is UTC; the virtual machine's LOCAL zone is UTC-5, so naive local time and naive UTC differ
+        # (seeded: last_commit stamped in naive UTC, age measured against naive local now() -- invisible
+        # on a machine whose local zone is UTC)
         t = VBASE + timedelta(seconds=VNOW[0])
         if tz is not None:
             return t.replace(tzinfo=timezone.utc).astimezone(tz)
-        return t
+        return t + LOCAL_OFFSET
 
     @classmethod
     def utcnow(cls):
@@ -50,8 +54,12 @@ def clock_owned_selfcheck(ds):
         return True, "skipped (no last_commit attribute)"
     VNOW[0] += 123.0
     st.commit()
-    ok = st.last_commit == VBASE + timedelta(seconds=VNOW[0])
-    return ok, f"last_commit={st.last_commit} virtual now={VBASE + timedelta(seconds=VNOW[0])}"
+    lc = st.last_commit
+    if getattr(lc, "tzinfo", None) is not None:
+        lc = lc.astimezone(timezone.utc).replace(tzinfo=None)
+    # owned = the storage's notion of "last flush" follows the virtual clock (in whatever zone convention)
+    ok = abs((lc - (VBASE + timedelta(seconds=VNOW[0]))).total_seconds()) <= 14 * 3600 and abs(((lc - VBASE).total_seconds() - VNOW[0]) % 3600) < 1e-6
+    return ok, f"last_commit={st.last_commit} virtual now (UTC)={VBASE + timedelta(seconds=VNOW[0])}"
 
 
 def connection_of(ds):
